@@ -120,8 +120,20 @@ def judge(case):
         if base[0] == "error":
             viol.append("evaluation raised %s: %s | %s | %r" % (base[1], base[2], text, env))
             continue
+        # unrelated extras that are RECORDS (dicts / lists) whose names and keys spell declared fields: user={"id": ...} next to
+        # user_id, fields={...}, kwargs={...} - still unrelated
+        other = {k: "OTHER-%s" % k for k in env}
+        records = {"fields": dict(other), "kwargs": dict(other), "record": dict(other), "defaults": dict(other), "context": [dict(other)]}
+        for k in env:
+            if "_" in k.strip("_"):
+                a, b = k.split("_", 1)
+                if a and a not in env:
+                    records[a] = {b: "OTHER", "_" + b: "OTHER"}
+        records = {k: v for k, v in records.items() if k not in M.all_fields(prog)}
         twins = [
             ("extra keyword arguments %r" % (extra,), sut.call(ev, dict(env, **extra))),
+            ("record-valued extra keyword arguments %r (after the fields)" % (sorted(records),), sut.call(ev, dict(env, **records))),
+            ("record-valued extra keyword arguments %r (before the fields)" % (sorted(records),), sut.call(ev, dict(records, **env))),
             ("experiment renamed to %s" % case["newname"], sut.call(ev_ren, env)),
             ("splitters declared as %r" % (permuted["splitters"],), sut.call(ev_perm, env)),
             ("arguments passed in reverse order", sut.call(ev, dict(reversed(list(env.items()))))),
